@@ -264,6 +264,7 @@ def selfcheck() -> None:
 def rule_memo(ctx: Ctx) -> None:
     p = ctx.prog
     ctx.do(rule_dirty)
+    ctx.do(rule_frozen)
     ctx.rule('MEMO-KEY', 'a lazily cached value derived from a per-call argument is keyed by that argument', floor=0)
     ctx.rule('MEMO-INVAL', 'a lazily cached value is cleared wherever a field it is derived from is assigned', floor=0)
     selfcheck()
@@ -414,3 +415,96 @@ def rule_dirty(ctx: Ctx) -> None:
                               f'{m.short} assigns self.{a}, which the computation skipped under `{norm(st.test)}` in {f.short} reads, without setting self.{F} = True: '
                               f'the stale result is kept', n)
     ctx.ok('MEMO-INVAL', 'kfac', f'{n_skips} flag-guarded skip(s) of a recomputation', None)
+
+
+INIT_CTORS = {'zeros_like', 'zeros', 'ones_like', 'ones', 'full', 'full_like', 'eye', 'new_zeros', 'new_ones', 'new_full', 'arange', 'tensor'}
+SINK_ARG0 = {'reduce_scatter', 'reduce_scatter_tensor', 'all_gather_into_tensor', 'broadcast', 'all_reduce', 'recv', 'irecv', 'reduce', 'scatter'}
+INPLACE_M = {'copy_', 'add_', 'sub_', 'mul_', 'div_', 'zero_', 'fill_', 'addcmul_', 'addcdiv_', 'clamp_', 'neg_', 'sqrt_', 'set_', 'resize_', 'transpose_', 't_'}
+
+
+def _module_containers(p: Program) -> set[str]:
+    out = set()
+    for m in p.modules.values():
+        for st in m.tree.body:
+            tg = st.targets[0] if isinstance(st, ast.Assign) and len(st.targets) == 1 else (st.target if isinstance(st, ast.AnnAssign) else None)
+            v = getattr(st, 'value', None)
+            if isinstance(tg, ast.Name) and v is not None and (isinstance(v, (ast.Dict, ast.List)) or (isinstance(v, ast.Call) and norm(v.func).split('.')[-1] in ('dict', 'list', 'defaultdict', 'OrderedDict'))):
+                out.add(tg.id)
+    return out
+
+
+def rule_frozen(ctx: Ctx) -> None:
+    """MEMO-FROZEN: a tensor (or list of tensors) with meaningful content (zeros, ones, eye ...) that is kept in a container
+    which outlives the call is shared by every later call: nothing may write into it in place."""
+    p = ctx.prog
+    ctx.rule('MEMO-FROZEN', 'content-initialised tensors kept in a persistent container (module-level or instance cache) are never written in place', floor=0)
+    globs = _module_containers(p)
+    n_f = n_store = 0
+    for f in p.functions():
+        if f.parent is not None:
+            continue
+        n_f += 1
+        nodes = p.nodes(f)
+        # values stored into a persistent container
+        cached: dict[str, ast.AST] = {}
+        for n in nodes:
+            if isinstance(n, ast.Assign) and len(n.targets) == 1 and isinstance(n.targets[0], ast.Subscript):
+                base = n.targets[0].value
+                persistent = (isinstance(base, ast.Name) and base.id in globs and not p.local_defs(f, base.id) and base.id not in f.params) or \
+                             (isinstance(base, ast.Attribute) and norm(base).startswith('self.') and not isinstance(n.targets[0].slice, ast.Slice))
+                if persistent and isinstance(n.value, ast.Name):
+                    cached[n.value.id] = n
+                    n_store += 1
+        if not cached:
+            continue
+        for v, store in cached.items():
+            # is the cached value content-initialised?
+            init = False
+            for d in p.local_defs(f, v):
+                for c in ast.walk(d):
+                    if isinstance(c, ast.Call) and norm(c.func).split('.')[-1] in INIT_CTORS:
+                        init = True
+            if not init:
+                continue
+            alias = {v}
+            changed = True
+            while changed:
+                changed = False
+                for n in nodes:
+                    if isinstance(n, ast.Assign) and len(n.targets) == 1 and isinstance(n.targets[0], ast.Name) and n.targets[0].id not in alias:
+                        src = n.value
+                        while isinstance(src, ast.Subscript):
+                            src = src.value
+                        if isinstance(src, ast.Name) and src.id in alias:
+                            alias.add(n.targets[0].id)
+                            changed = True
+            for n in nodes:
+                hit = None
+                if isinstance(n, ast.Call):
+                    fn = norm(n.func).split('.')[-1]
+                    a0 = n.args[0] if n.args else None
+                    root = a0
+                    while isinstance(root, ast.Subscript):
+                        root = root.value
+                    if fn in SINK_ARG0 and isinstance(root, ast.Name) and root.id in alias and ('dist' in norm(n.func) or 'distributed' in norm(n.func)):
+                        hit = f'{norm(n)[:80]} receives into it'
+                    if isinstance(n.func, ast.Attribute) and n.func.attr in INPLACE_M:
+                        r2 = n.func.value
+                        while isinstance(r2, ast.Subscript):
+                            r2 = r2.value
+                        if isinstance(r2, ast.Name) and r2.id in alias:
+                            hit = f'{norm(n)[:80]} modifies it in place'
+                    for k in n.keywords:
+                        if k.arg == 'out' and isinstance(k.value, ast.Name) and k.value.id in alias:
+                            hit = f'{norm(n)[:80]} writes its result into it'
+                if isinstance(n, ast.AugAssign):
+                    r3 = n.target
+                    while isinstance(r3, ast.Subscript):
+                        r3 = r3.value
+                    if isinstance(r3, ast.Name) and r3.id in alias and isinstance(n.target, ast.Subscript):
+                        hit = f'{norm(n)[:80]} updates it in place'
+                if hit:
+                    ctx.violate('MEMO-FROZEN', f, f'{v} cached in {norm(store.targets[0].value)}',
+                                f'{f.short}: {v} is created with initial content and kept in {norm(store.targets[0].value)} for later calls, but {hit}: '
+                                'the next call that takes it from the cache no longer finds the initial content', n)
+    ctx.ok('MEMO-FROZEN', 'kfac', f'{n_f} functions scanned, {n_store} store(s) of a local into a persistent container', None)
